@@ -107,6 +107,12 @@ class Module:
                 m = cp.match(l)
                 if m:
                     lo, cind = i + 1, len(m.group(1))
+                    # decorators of the class apply to all of its methods
+                    self.class_flags = []
+                    q = i - 1
+                    while q >= 0 and lines[q].strip().startswith("@"):
+                        self.class_flags.append(lines[q].strip())
+                        q -= 1
                     hi = len(lines)
                     for j in range(lo, len(lines)):
                         s = lines[j]
@@ -315,6 +321,8 @@ class _Lowerer:
         raw = "\n".join(lines)
         lines = [l[indent:] if l.strip() else "" for l in lines]
         flags = [l.strip() for l in lines if l.strip().startswith("@")]
+        if getattr(self, "cls", None):
+            flags = flags + list(getattr(self.mod, "class_flags", []))
         lines = [l for l in lines if not l.strip().startswith("@")]
         h_end = 0
         while _open_brackets(lines, 0, h_end + 1) or not lines[h_end].split("#")[0].rstrip().endswith(":"):
